@@ -1,4 +1,4 @@
 SPECIFICATION Spec
-CONSTANTS MaxCalls = 3  MaxIO = 12  TwoFaults = FALSE  MaxPolicyChanges = 0  Gen = TRUE
+CONSTANTS MaxCalls = 3  MaxIO = 12  TwoFaults = FALSE  MaxPolicyChanges = 0  Gen = TRUE  FreshTriad = TRUE
 INVARIANT Emit
 CHECK_DEADLOCK FALSE
